@@ -148,7 +148,7 @@ for _n in OUTCOME_ARGS:
 
 def execute(config, chooser, faults=True, make_forwarder=None):
     scripts = CONFIGS[config]
-    sched = S.Scheduler(chooser, horizon=2000)
+    sched = S.Scheduler(chooser, horizon=2000, exit_points=False)  # nothing in this harness observes thread termination
     sem = S.SSemaphore(sched, 1)
     target = SharedTarget(sched, faults)
     seen_exc = {}  # task index -> list of (step, exception repr)
